@@ -23,6 +23,7 @@ import (
 	"os"
 	"slices"
 	"strings"
+	"sync/atomic"
 	"testing"
 	"time"
 
@@ -51,6 +52,7 @@ type genCase struct {
 type finding struct {
 	T    string `json:"t"` // "pviol" | "drift" | "harness"
 	Case int    `json:"case"`
+	At   int    `json:"at"` // the index that chose the layout of the source slices (= case, except in a --replay)
 	Kind string `json:"kind"`
 	Elem string `json:"elem"` // the element-type variant the case was executed over
 	Expr *Expr  `json:"expr,omitempty"`
@@ -92,12 +94,12 @@ func withWatchdog(out *vio.Out, onHang func() any, f func()) {
 
 // judgeCase executes case ci over the element-type variant w (the vi-th one).  The layout of the source slices changes
 // from run to run (the drain, then every ForEach run), starting at a point that depends on the case and the variant.
-func judgeCase(ci, vi int, w variant, c *genCase, out *vio.Out, st *replayStats, iLevel bool) {
+func judgeCase(ci, at, vi int, w variant, c *genCase, out *vio.Out, st *replayStats, iLevel bool) {
 	emit := func(level, pred string, k int, want, got any) {
-		out.Put(finding{T: level, Case: ci, Kind: c.Kind, Elem: w.Name(), Expr: c.Expr, Pred: pred, K: k, Want: want, Got: got})
+		out.Put(finding{T: level, Case: ci, At: at, Kind: c.Kind, Elem: w.Name(), Expr: c.Expr, Pred: pred, K: k, Want: want, Got: got})
 	}
 	srcModified := func(k int, src []srcObs) {
-		f := finding{T: "pviol", Case: ci, Kind: c.Kind, Elem: w.Name(), Expr: c.Expr, Pred: "SourceModified", K: k}
+		f := finding{T: "pviol", Case: ci, At: at, Kind: c.Kind, Elem: w.Name(), Expr: c.Expr, Pred: "SourceModified", K: k}
 		if len(src) > 0 {
 			f.Want, f.Got, f.Src = src[0].Was, src[0].Is, "len = cap"
 			if src[0].Spare {
@@ -114,7 +116,7 @@ func judgeCase(ci, vi int, w variant, c *genCase, out *vio.Out, st *replayStats,
 			es.NilCases++
 		}
 	}()
-	mode := func(r int) int { return (ci + vi + r) % 4 }
+	mode := func(r int) int { return (at + vi + r) % 4 }
 	// ---- the documented loop
 	o := w.observe(mode(0), c.Kind, c.Expr, len(c.List)+2)
 	nils += o.Nils
@@ -204,17 +206,18 @@ func TestReplay(t *testing.T) {
 	// VERIF_ELEMS: "all" or the names of the variants to run (comma separated); VERIF_ELEM_EVERY = n: the variants other
 	// than int run on the cases of depth <= 1 (a source alone, one combinator over sources) and on every n-th other case
 	vars := allVariants()
+	skip := make([]bool, len(vars))
 	if sel := vio.Env("VERIF_ELEMS", "all"); sel != "all" {
-		keep := []variant{}
-		for _, w := range vars {
-			if slices.Contains(strings.Split(sel, ","), w.Name()) {
-				keep = append(keep, w)
+		n := 0
+		for vi, w := range vars {
+			skip[vi] = !slices.Contains(strings.Split(sel, ","), w.Name())
+			if !skip[vi] {
+				n++
 			}
 		}
-		if len(keep) == 0 {
+		if n == 0 {
 			t.Fatalf("VERIF_ELEMS=%q names no element-type variant", sel)
 		}
-		vars = keep
 	}
 	every := max(vio.EnvInt("VERIF_ELEM_EVERY", 1), 1)
 	seed := vio.EnvInt("VERIF_SEED", 1)
@@ -252,14 +255,19 @@ func TestReplay(t *testing.T) {
 			at = *c.Ci
 		}
 		small := depthOf(c.Expr) <= 1
-		for vi, w := range vars {
-			if w.Name() != "int" && !small && (at+vi+seed)%every != 0 {
-				continue
+		// one watchdog for the case: running holds the variant being executed
+		var running atomic.Int32
+		withWatchdog(out, func() any {
+			return finding{T: "pviol", Case: idx, At: at, Kind: c.Kind, Elem: vars[running.Load()].Name(), Expr: c.Expr, Pred: "Hang", Want: c.List, Got: "no answer within " + hangAfter.String()}
+		}, func() {
+			for vi, w := range vars {
+				if skip[vi] || w.Name() != "int" && !small && (at+vi+seed)%every != 0 {
+					continue
+				}
+				running.Store(int32(vi))
+				judgeCase(idx, at, vi, w, &c, out, st, w.Name() == "int")
 			}
-			withWatchdog(out, func() any {
-				return finding{T: "pviol", Case: idx, Kind: c.Kind, Elem: w.Name(), Expr: c.Expr, Pred: "Hang", Want: c.List, Got: "no answer within " + hangAfter.String()}
-			}, func() { judgeCase(at, vi, w, &c, out, st, w.Name() == "int") })
-		}
+		})
 		st.Cases++
 		return nil
 	})
